@@ -31,7 +31,7 @@ func verifWaitWithTimeout(c *Cond, timeout time.Duration) (time.Duration, bool) 
 	}
 	el := time.Duration(verifInt64("elapsed"))
 	verifAssume(el >= 0)
-	verifAssume(el <= 1<<40)
+	verifAssume(el <= 1<<20)
 	verifElapsed += el
 	if verifChoose("returned", 2) == 1 && verifOut > 0 {
 		// the signaller really returned its borrow (channel only: the signal
@@ -119,7 +119,7 @@ func Verif_C18_timedborrow() {
 	verifWaitCalls, verifElapsed = 0, 0
 	timeout := time.Duration(verifInt64("timeout"))
 	verifAssume(timeout >= -10)
-	verifAssume(timeout <= 1<<40)
+	verifAssume(timeout <= 1<<20)
 	err := tl.Borrow(timeout)
 	if err == nil {
 		verifOut++
